@@ -463,8 +463,16 @@ func (e *Env) RMapOrder(filter func(mapRange) bool) {
 			why, frozen := mapOrderFrozen[mr.name]
 			if !frozen {
 				// the children switch of Walk may live in a helper: same exception as for Walk
-				if w := e.Sib.ByName["walk"]; w != nil && w.Func == mr.fd && w.Frame != nil {
-					why, frozen = mapOrderFrozen[mr.pkg.PkgPath+"."+load.FuncName(w.Frame)+" "+types.ExprString(mr.rs.X)]
+				if w := e.Sib.ByName["walk"]; w != nil {
+					inWalk := w.Func == mr.fd && w.Frame != nil
+					for _, d := range w.Chain {
+						if d == mr.fd {
+							inWalk = true
+						}
+					}
+					if inWalk {
+						why, frozen = mapOrderFrozen[mr.pkg.PkgPath+".Walk "+types.ExprString(mr.rs.X)]
+					}
 				}
 			}
 			if frozen {
